@@ -42,6 +42,7 @@ func caseSize(c *Case) map[string]int {
 }
 
 type minimiser struct {
+	known    []knownFinding
 	target   Failure
 	run      *caseRunner
 	deadline time.Time
@@ -57,7 +58,15 @@ func (m *minimiser) fails(c *Case) bool {
 	if v == nil || v.Infra != "" {
 		return false
 	}
-	return sameFailure(v, m.target) != nil
+	f := sameFailure(v, m.target)
+	if f == nil {
+		return false
+	}
+	// a candidate that a known finding explains is not the same violation any more
+	if len(m.known) > 0 && explain(m.known, *f, c, m.run) != nil {
+		return false
+	}
+	return true
 }
 
 func (m *minimiser) valid(c *Case) bool {
@@ -80,8 +89,8 @@ func sitePolicy(seed uint64, site int) int {
 	return 1 + int((h>>8)%3)
 }
 
-func minimise(orig *Case, target Failure, run *caseRunner, budget time.Duration) *Case {
-	m := &minimiser{target: target, run: run, deadline: time.Now().Add(budget)}
+func minimise(orig *Case, target Failure, run *caseRunner, budget time.Duration, known []knownFinding) *Case {
+	m := &minimiser{target: target, run: run, deadline: time.Now().Add(budget), known: known}
 	cur := cloneCase(orig)
 	before := caseSize(cur)
 	// non-termination candidates are judged with a smaller step budget while minimising (still > 10x any
